@@ -185,6 +185,9 @@ def gen_case(world, tier, prop):
         d['btype'] = 'Partial'
       if trng.random() < 0.5 and d['fn'] in ('n0', 'N2', 'n5', 'n6'):
         d['kwargs']['x'] = {'list': [90000 + 100 * k + j for j in range(trng.randint(3, 7))]}
+      elif d['fn'] in ('n0', 'N2', 'n5', 'n6'):
+        # a tuple of immutables: deepcopy hands the SAME tuple object to every copy
+        d['kwargs']['x'] = {'tuple': [91000 + 100 * k + j for j in range(trng.randint(2, 5))]}
       templates.append(d)
   pre = [d['fn'] for d in templates]
   threads = [gen_thread(rng, t, behav, max_ops, force, pre_fns=pre) for t in range(nthreads)]
@@ -204,6 +207,11 @@ def gen_case(world, tier, prop):
           'opcode': OPCODE_OK and sw.random() < 0.33, 'sched_seed': world.seed}
   if templates:
     case['templates'] = templates
+  if trng.random() < 0.15:
+    # a thread ends with history tracking switched off; threads started AFTER all
+    # of these have finished (which may get their idents) must start tracked
+    threads[trng.randrange(nthreads)].append({'op': 'tracking_off'})
+    case['second_generation'] = trng.randint(2, 4)
   if trng.random() < 0.2 and nthreads >= 2:
     # one thread registers a traverser for a container type while another is
     # already meeting values of that type (as opaque leaves)
@@ -313,6 +321,10 @@ def alone_reference(case):
             prog.step(env, op)
         finally:
           prog.finish(env)
+          if env.tracking_off:
+            # (the alone runs share one OS thread: undo what the real thread
+            # would have taken to its grave)
+            fdl_history.set_tracking(enabled=True)
         out['obs'].append(env.obs)
         out['nested'][str(t)] = R.nested_outcomes[t]
       out['post'] = post_observation(case, R)
@@ -436,6 +448,25 @@ def run(case):
   class _Alone:     # same shape the comparisons below expect
     def __init__(self, obs):
       self.obs = obs
+  if case.get('second_generation'):
+    import threading as _threading
+    seen = []
+
+    def fresh():
+      ok = fdl_history.tracking_enabled()
+      c = fdl.Config(R.fns['n0'], uid=730000)
+      c.x = 1
+      seen.append((ok, len(c.__argument_history__.get('x', []))))
+    for _ in range(case['second_generation']):
+      t_ = _threading.Thread(target=fresh)
+      t_.start()
+      t_.join()
+    res['probes']['threads_started_after_the_first_finished'] = len(seen)
+    if any(not ok or n_ != 1 for ok, n_ in seen):
+      res['violations'].append(V(
+          'tracking-not-per-thread',
+          f'a thread started after all others had finished begins with tracking '
+          f'off / logs nothing (tracking_enabled, entries for x): {seen}'))
   post = json.loads(json.dumps(post_observation(case, R), default=repr))
   if post != ref.get('post'):
     res['violations'].append(V(
